@@ -165,6 +165,9 @@ def gen_spec(rng):
     nc = len(spec["df"]["cols"])
     if "col_rel_width" in spec["body"] and rng.random() < 0.5:
         spec["body"]["col_rel_width"] = [round(rng.uniform(0.2, 10), rng.choice([1, 2, 3])) for _ in range(nc)]
+        if rng.random() < 0.1:
+            # the ends of the quantifier's range side by side
+            spec["body"]["col_rel_width"] = [rng.choice([0.2, 0.2, 1, 10, 10]) for _ in range(nc)]
     sbn = spec["body"].get("subline_by") or []
     if sbn and len(spec["body"].get("col_rel_width") or []) == nc and rng.random() < 0.4:
         # documented short form: widths only for the columns left once the subline_by columns are gone
